@@ -115,17 +115,8 @@ theorem bins_partition_train_cells (keys : List (List Int)) :
 -1 when the leaf received no model (or is no leaf of the tree at all). -/
 theorem bins_partition_predict_tree {κ} [BEq κ] [LawfulBEq κ] (leaves mapped keys : List κ)
     (hsub : ∀ k ∈ mapped, k ∈ leaves) :
-    transformBinsTree leaves mapped.zipIdx keys = keys.map (bucketId mapped) := by
-  rw [transformBinsTree_closed]
-  apply List.map_congr_left
-  intro k _
-  rw [dictGet_zipIdx]
-  by_cases h : k ∈ leaves
-  · have hc : leaves.contains k = true := by simpa using h
-    simp only [hc, if_true]
-  · have hl : leaves.contains k = false := by simpa using h
-    have hm : mapped.contains k = false := by simpa using (fun hm => h (hsub k hm))
-    simp only [hl, Bool.false_eq_true, if_false, bucketId, hm]
+    transformBinsTree leaves mapped.zipIdx keys = keys.map (bucketId mapped) :=
+  transformBinsTree_zipIdx leaves mapped keys hsub
 
 /-- **bins_partition (prediction, discretizer)** -/
 theorem bins_partition_predict_cells {κ} [BEq κ] [LawfulBEq κ] (mapped keys : List κ) :
